@@ -113,6 +113,8 @@ Definition meth0 (m : string) (r : val) : outcome :=
   | "next_power_of_two", VN x => if npow2 x <? W then Ret (VN (npow2 x)) else Ovf
   | "as_ref", VPtr _ v => Ret v                         (* NonNull::as_ref *)
   | "as_ptr", VPtr a _ => Ret (VN a)                    (* NonNull::as_ptr: the address *)
+  | "as_ptr", VRec fs =>                                (* a collection's buffer pointer: the same as as_mut_ptr *)
+      match lookup "as_mut_ptr" fs with Some v => Ret v | None => Ret (VRec fs) end
   | "get", v => Ret v                                   (* Cell::get *)
   | "as_ref", v => Ret v                                (* NonNull::as_ref: the pointee is the record itself *)
   | "as_ptr", v => Ret v                                (* NonNull::as_ptr: addresses are numbers *)
